@@ -387,3 +387,86 @@ Proof. intros H Hi. destruct (update_request_l p d s r d' x f t u H Hi) as (_ & 
 
 Lemma unpin_stall_l dis c d s r d' cl : conn_unpin dis c d s = (r, d', [(cl, PStall)]) -> r = RErr.
 Proof. intros H. exact (unpin_failure_l dis c d s r d' [(cl, PStall)] H eq_refl). Qed.
+
+(* ---------- the boolean check means what it says (soundness of spec_fails on an observation) ---------- *)
+Lemma optmode_eqb_eq a b : optmode_eqb a b = true <-> a = b.
+Proof.
+  destruct a as [x|], b as [y|]; simpl; split; intro H; try discriminate; auto.
+  - apply pmode_eqb_eq in H. now subst.
+  - injection H as ->. now apply pmode_eqb_eq.
+Qed.
+
+Lemma result_eqb_eq a b : result_eqb a b = true <-> a = b.
+Proof. destruct a, b; simpl; split; intro H; congruence. Qed.
+
+Definition PinSpec (p : pinreq) (d : daemon) (s : script) (ob : obs) : Prop :=
+  let '(Obs r st d' reqs nconn) := ob in
+  (r = ROk -> update_consistent p = true -> aget (p_cid p) d' = Some (mode_of (p_depth p))) /\
+  (last_failed (replay d reqs s) = true -> r <> ROk) /\
+  (forall pre cl, replay d reqs s = pre ++ [(cl, PStall)] -> r = RErr) /\
+  (nconn <= min10 (p_origins p))%N.
+
+Lemma spec_pin_sound p d s ob : spec_fails (OpPin p) d s ob = [] -> PinSpec p d s ob.
+Proof.
+  destruct ob as [r st d' reqs nconn]. unfold spec_fails, PinSpec.
+  intros H.
+  apply app_eq_nil in H as [H10 H]. apply app_eq_nil in H as [H11 H]. apply app_eq_nil in H as [H12 H].
+  apply app_eq_nil in H as [H13 H]. apply app_eq_nil in H as [H14 H16].
+  repeat split.
+  - intros -> Hc. rewrite Hc in H10. simpl in H10.
+    destruct (optmode_eqb (aget (p_cid p) d') (Some (mode_of (p_depth p)))) eqn:E; [|discriminate].
+    now apply optmode_eqb_eq.
+  - intros Hl ->. rewrite Hl in H13. discriminate.
+  - intros pre cl Hx. rewrite Hx in H14. rewrite last_failed_snoc, rev_app_distr in H14. simpl in H14.
+    destruct (result_eqb r RErr) eqn:E; [now apply result_eqb_eq|discriminate].
+  - destruct (nconn <=? min10 (p_origins p))%N eqn:E; [now apply N.leb_le|discriminate].
+Qed.
+
+Definition UnpinSpec (c : N) (d : daemon) (s : script) (ob : obs) : Prop :=
+  let '(Obs r st d' reqs nconn) := ob in
+  (r = ROk -> honest_rm c d s = true -> aget c d' = None) /\
+  (last_failed (replay d reqs s) = true -> r <> ROk).
+
+Lemma spec_unpin_sound c dis d s ob : spec_fails (OpUnpin c dis) d s ob = [] -> UnpinSpec c d s ob.
+Proof.
+  destruct ob as [r st d' reqs nconn]. unfold spec_fails, UnpinSpec.
+  intros H.
+  apply app_eq_nil in H as [H10 H]. apply app_eq_nil in H as [_ H]. apply app_eq_nil in H as [H13 _].
+  split.
+  - intros -> Hh. rewrite Hh in H10. simpl in H10.
+    destruct (optmode_eqb (aget c d') None) eqn:E; [|discriminate]. now apply optmode_eqb_eq.
+  - intros Hl ->. rewrite Hl in H13. discriminate.
+Qed.
+
+(* the model's own run reproduces its exchange log when replayed against the daemon contract *)
+Lemma replay_pin p d s r d' x : conn_pin p d s = (r, d', x) -> replay d (requests x) s = x.
+Proof.
+  intros H. pose proof (conn_pin_path true p d s) as P. unfold conn_pin in H. rewrite H in P.
+  inversion P as [E1 | E1 E2 | from b3 E1 E2 EU E3 Eb Hr | pre b3 E1 E2 Hor Hr]; subst r x; subst d'; try subst b3; unfold requests; simpl.
+  - unfold r1. destruct (pop s) as [b s'] eqn:Ep. simpl. destruct (serve d (ls1 p) b); reflexivity.
+  - unfold r1. destruct (pop s) as [b s'] eqn:Ep. simpl. destruct (serve d (ls1 p) b); reflexivity.
+  - unfold r1, r2.
+    destruct (pop s) as [b s'] eqn:Ep. simpl.
+    pose proof (serve_ls_fst d (p_cid p) (pt p) b) as F1. unfold ls1 in *.
+    destruct (serve d (CLs (p_cid p) (pt p)) b) as [da ra] eqn:Es1. simpl in F1. subst da. simpl.
+    destruct (pop s') as [b' s''] eqn:Ep'. simpl.
+    pose proof (serve_ls_fst d from (pt2 p) b') as F2. unfold ls2 in *.
+    destruct (serve d (CLs from (pt2 p)) b') as [db rb] eqn:Es2. simpl in F2. subst db. simpl.
+    destruct (pop s'') as [b'' s'''] eqn:Ep''. simpl.
+    destruct (serve d (CUpdate from (p_cid p) false) b''); reflexivity.
+  - rewrite map_app. simpl.
+    destruct Hor as [(EU & -> & ->)|(from & EU & E3 & -> & ->)]; simpl; unfold r1, r2.
+    + destruct (pop s) as [b s'] eqn:Ep. simpl.
+      pose proof (serve_ls_fst d (p_cid p) (pt p) b) as F1. unfold ls1 in *.
+      destruct (serve d (CLs (p_cid p) (pt p)) b) as [da ra] eqn:Es1. simpl in F1. subst da. simpl.
+      destruct (pop s') as [b' s''] eqn:Ep'. simpl.
+      destruct (serve d (add_call (p_cid p) (p_depth p)) b'); reflexivity.
+    + destruct (pop s) as [b s'] eqn:Ep. simpl.
+      pose proof (serve_ls_fst d (p_cid p) (pt p) b) as F1. unfold ls1 in *.
+      destruct (serve d (CLs (p_cid p) (pt p)) b) as [da ra] eqn:Es1. simpl in F1. subst da. simpl.
+      destruct (pop s') as [b' s''] eqn:Ep'. simpl.
+      pose proof (serve_ls_fst d from (pt2 p) b') as F2. unfold ls2 in *.
+      destruct (serve d (CLs from (pt2 p)) b') as [db rb] eqn:Es2. simpl in F2. subst db. simpl.
+      destruct (pop s'') as [b'' s'''] eqn:Ep''. simpl.
+      destruct (serve d (add_call (p_cid p) (p_depth p)) b''); reflexivity.
+Qed.
